@@ -251,6 +251,9 @@ func runParts(id string, p *Prop, tier string, seed int64) int {
 	seenA := map[string]bool{}
 	rc := 0
 	for _, part := range p.Parts {
+		if props[part] == nil || !readyIDs[part] {
+			continue // part not built or not validated yet: not claimed
+		}
 		r := runCheck(part, tier, seed)
 		b, err := os.ReadFile(filepath.Join(evidenceDir(), part+".json"))
 		if err == nil {
